@@ -216,9 +216,15 @@ static std::atomic<std::uint64_t> g_snd_ops{0}, g_snd_connects{0}, g_snd_empty_c
 static outcome run_now(std::shared_ptr<record> rec)
 {
     // inline leaves complete inside start(); others need the runtime - wait by polling from this plain thread
-    for (int i = 0; i < 4000000 && !rec->done.load(); ++i)
-        if ((i & 1023) == 1023) std::this_thread::sleep_for(std::chrono::microseconds(50));
-    if (!rec->done.load()) return {-1, 0};
+    // no short deadline here: on a loaded machine a std::thread leaf can take long; only a pipeline that has not completed
+    // after two minutes is reported (as channel -1), everything else is judged on what it completed with
+    auto const t0 = std::chrono::steady_clock::now();
+    for (std::uint64_t i = 0; !rec->done.load(); ++i)
+    {
+        if (i < 2000) continue;
+        std::this_thread::sleep_for(std::chrono::microseconds(50));
+        if ((i & 4095) == 0 && std::chrono::steady_clock::now() - t0 > std::chrono::seconds(120)) return {-1, 0};
+    }
     return {rec->channel.load(), rec->value.load()};
 }
 
